@@ -84,7 +84,11 @@ def handle : List String → String
   | ["bytereader", msg, r] =>
     match parseMsg msg with
     | none => "bad-op"
-    | some m => let e := match m.content with | some b => hex b | none => "err"; verdict e e r
+    | some m =>
+      let e := match m with
+        | .reader sc => if (scriptError sc).isSome then "err" else hex (scriptContent sc)
+        | _ => match m.content with | some b => hex b | none => "err"
+      verdict e e r
   | _ => "bad-op"
 
 end Driver.C14
